@@ -54,6 +54,12 @@ def judge(ctx, t, r, mode):
         ctx.fail(desc, "spec", f"operation modified its input array(s) #{r['inputs_mutated']}")
     if r.get("object_mutated"):
         ctx.fail(desc, "spec", "non-mutating operation changed the object's network")
+    if r.get("aged"):
+        ctx.count("aged-object")
+    if r.get("cache_mutated"):
+        ctx.fail(desc, "spec", f"non-mutating operation modified in place array(s) the object holds for later queries: _cached{r['cache_mutated']} (earlier queries: {r.get('aged')})")
+    if r.get("state_diverged"):
+        ctx.fail(desc, "spec", f"after the operation the object's public state differs from a freshly constructed object with the same network / transform: {r['state_diverged']} (earlier queries: {r.get('aged')})")
     ctx.hist["max_wall"] = max(ctx.hist.get("max_wall", 0), r.get("wall", 0))
 
 
